@@ -47,6 +47,15 @@ sys.stdin.read()
 
 def scenarios(tier, seed):
     sc = c05.scenarios("quick")[:2]
+    # a report made with -S whose RETAINED member is a symbolic link (it sorts first; its target lies outside the
+    # scanned root): the droppable members are ordinary files and can be locked like any other
+    w = World()
+    w.add_file("o/x", {"fam": 30, "len": 60, "flips": []})
+    w.add_symlink("r/0lnk", "../o/x")
+    for nm in ("a", "b", "d/c"):
+        w.add_file("r/" + nm, {"fam": 30, "len": 60, "flips": []})
+    w.add_dir("T")
+    sc.append({"name": "retained-symlink", "world": w.to_json(), "roots": ["r"], "gargs": ["-S"]})
     if tier == "thorough":
         sc = c05.scenarios("thorough")
         sc = [s for s in sc if s["name"] not in ("symlinks",)]
